@@ -119,6 +119,27 @@ func decorate(it *astisub.Item, k int) *astisub.Item {
 	return it
 }
 
+// someMetadata gives a list the metadata of the format it may have come from (frame-based STL, TTML, WebVTT with a
+// timestamp map, SSA, teletext: none at all): the timing transformations are about cues only
+func someMetadata(sub *astisub.Subtitles, k int) {
+	switch k % 7 {
+	case 0:
+		sub.Metadata = nil
+	case 1:
+		sub.Metadata = &astisub.Metadata{}
+	case 2:
+		sub.Metadata = &astisub.Metadata{Framerate: 25, STLDisplayStandardCode: "0", STLTimecodeStartOfProgramme: 10 * time.Hour}
+	case 3:
+		sub.Metadata = &astisub.Metadata{Framerate: 30, Title: "t"}
+	case 4:
+		sub.Metadata = &astisub.Metadata{Framerate: 24, Language: astisub.LanguageFrench, Title: "t", TTMLCopyright: "c"}
+	case 5:
+		sub.Metadata = &astisub.Metadata{WebVTTTimestampMap: &astisub.WebVTTTimestampMap{Local: time.Second, MpegTS: 900000}}
+	case 6:
+		sub.Metadata = &astisub.Metadata{Framerate: 7, SSAScriptType: "v4.00+"}
+	}
+}
+
 // prewarm gives the list a past: with the cues parked on 0,1,2,.. (already ordered, nothing touching) it is ordered,
 // fragmented with a period beyond the end and unfragmented - none of which changes anything - and then the cues get
 // their real times back through the public fields. What a later call does must depend on the list as it is now.
